@@ -121,6 +121,7 @@ func runC04(r *Run) error {
 		}
 		return strings.Join(out, " ; ")
 	}
+	r.sig = append(r.sig, fmt.Sprint(order), describe())
 	// probes: declared paths and their neighbours, on declared hosts and a foreign one
 	paths := map[string]bool{"/": true, "/zz": true}
 	hs := map[string]bool{"other.local": true}
